@@ -195,6 +195,19 @@ func runMutant(self, prop, repo, verif string, m mutant) mutantResult {
 		out.Outcome, out.Detail = "skipped", "copy: "+err.Error()
 		return out
 	}
+	// a patch is applied first: the edits of a variant may then refer to the patched text
+	if m.Patch != "" {
+		pf := m.Patch
+		if !filepath.IsAbs(pf) {
+			pf = filepath.Join(verif, pf)
+		}
+		ap := exec.Command("git", "apply", "--whitespace=nowarn", pf)
+		ap.Dir = tmp
+		if b, err := ap.CombinedOutput(); err != nil {
+			out.Outcome, out.Detail = "skipped", "patch does not apply to the current tree: "+strings.TrimSpace(string(b))
+			return out
+		}
+	}
 	for _, e := range m.Edits {
 		p := filepath.Join(tmp, e.File)
 		b, err := os.ReadFile(p)
@@ -222,14 +235,6 @@ func runMutant(self, prop, repo, verif string, m mutant) mutantResult {
 		}
 		if err := os.WriteFile(p, []byte(s), 0o644); err != nil {
 			out.Outcome, out.Detail = "skipped", err.Error()
-			return out
-		}
-	}
-	if m.Patch != "" {
-		ap := exec.Command("git", "apply", "--whitespace=nowarn", m.Patch)
-		ap.Dir = tmp
-		if b, err := ap.CombinedOutput(); err != nil {
-			out.Outcome, out.Detail = "skipped", "patch does not apply to the current tree: "+strings.TrimSpace(string(b))
 			return out
 		}
 	}
